@@ -393,6 +393,14 @@ pub fn archives(seed: u64, thorough: bool) -> Vec<Arch> {
         };
         let spec = Spec { entries: vec![e("one"), e("two/ü")], comment: b"builder".to_vec(), force_zip64_eocd: k == 3, ..Default::default() };
         add(format!("builder:m{m}"), build(&spec).0, None, spec.to_json(), None);
+        // general-purpose bits 1 and 2: for these methods a hint about the compressor's effort (what `zip -1` / `zip -9` leave
+        // behind), nothing a reader acts on
+        for fl in [0x2u16, 0x4, 0x6] {
+            let mut h = e("hinted");
+            h.extra_flags = fl;
+            let spec = Spec { entries: vec![e("plain"), h, e("after")], ..Default::default() };
+            add(format!("builder:option-bits-{fl:#x}:m{m}"), build(&spec).0, None, spec.to_json(), None);
+        }
         // zip64 local block carrying the sizes
         let mut z = e("z64");
         z.zip64_local = true;
